@@ -875,12 +875,13 @@ def write_evidence(ctx, level, rule, explanation=None, exhaustive=None, extra=No
     ev = {"property_id": ctx.prop, "tier": ctx.tier, "seed": int(ctx.seed), "level": level, "coverage": cov,
           "assumptions": ctx.assumptions, "wall_s": round(time.time() - ctx.t0, 1),
           "violations": len(ctx.violations)}
-    os.makedirs(EVIDENCE, exist_ok=True)
-    tmp = os.path.join(EVIDENCE, ctx.prop + ".json.tmp%d" % os.getpid())
+    evdir = EVIDENCE if not ctx.prop.startswith("X") else os.path.join(EVIDENCE, "extra")   # X..: coverage beyond the listed properties
+    os.makedirs(evdir, exist_ok=True)
+    tmp = os.path.join(evdir, ctx.prop + ".json.tmp%d" % os.getpid())
     with open(tmp, "w") as f:
         json.dump(ev, f, indent=1, sort_keys=True, default=str)
         f.write("\n")
-    os.replace(tmp, os.path.join(EVIDENCE, ctx.prop + ".json"))
+    os.replace(tmp, os.path.join(evdir, ctx.prop + ".json"))
 
 
 def finish(ctx, level, rule, **kw):
